@@ -124,6 +124,10 @@ func PathOf(v ssa.Value) Path {
 				continue
 			}
 		}
+		if rp, isRow := resolveRow(p); isRow {
+			p = rp
+			continue
+		}
 		nv, ok := substituted(p.Root)
 		if !ok {
 			break
@@ -167,6 +171,18 @@ func pathOf(v ssa.Value) Path {
 			}
 			if g, ok := x.X.(*ssa.Global); ok {
 				return Path{Root: g}
+			}
+			// *(&x.F) is x.F: a pointer that denotes the address of a field
+			// (a table cell "&rec.F" under a row binding)
+			if _, isPtr := x.X.Type().Underlying().(*types.Pointer); isPtr && len(rowBind) > 0 {
+				if _, isAlloc := x.X.(*ssa.Alloc); !isAlloc {
+					inner := PathOf(x.X)
+					if n := len(inner.Fields); n > 0 && strings.HasPrefix(inner.Fields[n-1], "&") {
+						fs := append([]string{}, inner.Fields...)
+						fs[n-1] = strings.TrimPrefix(fs[n-1], "&")
+						return Path{Root: inner.Root, Fields: fs}
+					}
+				}
 			}
 		}
 	case *ssa.Field:
